@@ -31,7 +31,7 @@ def gen(tier, rng):
         out.append(Case("keypair_rand", cp, [tape], ["in_domain", "scripted-rng"]))
         out.append(Case("kp_generate_rand", API_OF[cp], [tape], ["in_domain", "scripted-rng", "api"]))
         # crate-only bulk (oracle = Python reference)
-        for sd in seeds(rng, 30 if tier == "quick" else 1500)[nm:]:
+        for sd in seeds(rng, 30 if tier == "quick" else 300)[nm:]:
             out.append(Case("keypair", cp, [sd], ["in_domain", "seeded", "crate-only"]))
         for _ in range(4 if tier == "quick" else 100):
             out.append(Case("keypair_live", cp, [], ["in_domain", "live-rng", "crate-only"], skip_release=True))
@@ -75,8 +75,41 @@ def oracle(c, outs):
     return None
 
 
+def _ref_digest(job):
+    cp, seed = job
+    import hashlib
+    pk, sk = pyref.keygen(Par(cp), seed)
+    return hashlib.shake_256(pk + sk).digest(32)
+
+
+def volume(rep, cov, tier, rng):
+    """Volume: thousands of seeds per set, crate (digest of pk||sk computed in the harness with the crate's SHAKE) against the
+    independent Python KeyGen (computed in a process pool). Rare sampler/rounding boundary events (a rejection-sampling candidate
+    equal to q, a coefficient of A*s1 within eta of 0 or q) occur about once per 600..2000 keys."""
+    from concurrent.futures import ProcessPoolExecutor
+    per = 6000 if tier == "quick" else 60000
+    jobs = []
+    for cp in ALL:
+        for i in range(per):
+            jobs.append((cp, (rng.getrandbits(64)).to_bytes(8, "little") + bytes(16) + rng.getrandbits(64).to_bytes(8, "little")))
+    with ProcessPoolExecutor(max_workers=16) as ex:
+        ref = list(ex.map(_ref_digest, jobs, chunksize=200))
+    got = crate([("keypair_digest", cp, [sd]) for cp, sd in jobs])
+    bad = 0
+    for (cp, sd), r, g in zip(jobs, ref, got):
+        if g is None or g[0] != r:
+            bad += 1
+            if bad <= 3:
+                rep.violation("%s: key pair for seed %s differs from the specification's KeyGen" % (cp, sd.hex()),
+                              {"cases": [{"fn": "keypair", "copy": cp, "args": ["x" + sd.hex()], "tags": ["in_domain"], "exact": True}]}, True)
+    cov["volume_keygens_vs_reference"] = len(jobs)
+    cov["evaluations"] = cov.get("evaluations", 0) + len(jobs)
+    cov["distinct_nontrivial"] = cov.get("distinct_nontrivial", 0) + len(jobs)
+
+
 def extra(rep, cov, tier, rng):
     """Algebraic relation on decoded keys (independent of both the model and the Python KeyGen)."""
+    volume(rep, cov, tier, rng)
     n = 0
     for cp in ALL:
         p = Par(cp)
